@@ -96,7 +96,7 @@ def const_assert_ok(prog, body, bb):
     return isinstance(c, tuple) and c[0] == "c" and isinstance(c[2], int) and bool(c[2]) == bool(t["expected"])
 
 
-def classify(prog, R, rule, fns, reviewed, skip=lambda s: False):
+def classify(prog, R, rule, fns, reviewed, skip=lambda s: False, auto=None):
     """Record one obligation per panic-capable site of `fns`:
     discharged (constant assert), reviewed (table entry, with frozen callers
     where the reason depends on the call context), or violation."""
@@ -114,6 +114,9 @@ def classify(prog, R, rule, fns, reviewed, skip=lambda s: False):
         b = prog.body(s_["fn"])
         key = s_["key"]
         full = f"{rule}:{key}"
+        if auto is not None and auto(s_):
+            R.ob(rule, key, True, s_["at"], "compiler-inserted validity check on a reference/box produced by safe code (cannot fail)")
+            continue
         if s_["kind"] == "assert" and const_assert_ok(prog, b, s_["bb"]):
             R.ob(rule, key, True, s_["at"], "assert condition is a compile-time constant (shift amount / divisor is an evaluated constant within range)")
             continue
